@@ -98,7 +98,7 @@ def _tree_case(c):
     # the library's own distribution object of this dimension must be the declared one
     fails = []
     for x in ([a, b] if np.isfinite(a) else []) + [spec[dim][0][1] if len(spec[dim][0]) > 1 else 0.5 * (a + b), 0.3, 1.7]:
-        if np.isfinite(x) and abs(float(op.distributions[dim].cdf(x)) - float(D.cdf(x))) > 1e-12:
+        if np.isfinite(x) and not (abs(float(op.distributions[dim].cdf(x)) - float(D.cdf(x))) <= 1e-12):
             fails.append(fail("distribution_is_the_declared_one", "dimension %d: cdf(%r) = %r, declared %r gives %r" % (dim, x, float(op.distributions[dim].cdf(x)), spec[dim][0], float(D.cdf(x))), key))
             break
     mid = lambda lo, hi: g.get_mid_point(lo, hi, dim)
@@ -147,7 +147,7 @@ def _tree_case(c):
                 break
             l, r = float(D.cdf(m) - D.cdf(x1)), float(D.cdf(x2) - D.cdf(m))
             # (the coordinates themselves are only known to eps*|x|: on supports far from the origin that is a mass of eps*|x|*pdf)
-            if abs(l - r) > 1e-10 + 1e-15 * max(abs(x1), abs(x2)) * 2.0 / min(x2 - x1 if np.isfinite(x2 - x1) else 1.0, 1.0) / max(mass, 1e-3):
+            if not (abs(l - r) <= 1e-10 + 1e-15 * max(abs(x1), abs(x2)) * 2.0 / min(x2 - x1 if np.isfinite(x2 - x1) else 1.0, 1.0) / max(mass, 1e-3)):
                 fails.append(fail("midpoint_halves_probability", "interval [%r,%r]: mid %r, left mass %r right mass %r" % (x1, x2, m, l, r), key))
                 break
         try:
@@ -163,13 +163,13 @@ def _tree_case(c):
         s = float(np.sum(w))
         worst_sum = max(worst_sum, abs(s - 1))
         tol = 1e-12 if not bd else 1e-8
-        if abs(s - 1.0) > tol:
+        if not (abs(s - 1.0) <= tol):
             fails.append(fail("weights_sum_to_one", "points %r: sum %r" % (pts, s), key))
         if name.startswith("uniform") and bd:
             gt = GlobalTrapezoidalGrid(np.array([a]), np.array([b]), boundary=True)
             gt.set_grid([pts], [lv])
             wu = np.array(gt.weights[0], dtype=float) / (b - a)
-            if np.max(np.abs(wu - w)) > 1e-9:
+            if not (np.max(np.abs(wu - w)) <= 1e-9):
                 fails.append(fail("uniform_equals_unweighted", "points %r: weighted %r, unweighted/(b-a) %r" % (pts, w.tolist(), wu.tolist()), key))
         if len(fails) > 3:
             break
@@ -228,20 +228,20 @@ def _moment_case(case):
         mass *= float(cdf(B[k]) - cdf(A[k]))
         # the per-dimension distribution objects of the operation are the declared ones
         for x in (0.3, 1.7):
-            if abs(float(op.distributions[k].cdf(x)) - float(cdf(x))) > 1e-12:
+            if not (abs(float(op.distributions[k].cdf(x)) - float(cdf(x))) <= 1e-12):
                 fails.append(fail("distribution_is_the_declared_one", "dimension %d: cdf(%r) = %r, declared %r gives %r" % (k, x, float(op.distributions[k].cdf(x)), spec[k][0], float(cdf(x))), key))
     deficit = abs(1.0 - mass)
     rt = 1e-11 + 4 * deficit
     for i, (cc, ee) in enumerate(maps):
         sc = max(1.0, abs(E[0]) * abs(cc) + abs(ee))
-        if abs(E[1 + i] - (cc * E[0] + ee)) > rt * sc:
+        if not (abs(E[1 + i] - (cc * E[0] + ee)) <= rt * sc):
             fails.append(fail("expectation_affine", "E[%r f + %r] = %r, c E[f] + e = %r" % (cc, ee, E[1 + i], cc * E[0] + ee), key))
         scv = max(1.0, cc * cc * (abs(V[0]) + E[0] ** 2) + ee * ee + 2 * abs(cc * ee * E[0]))
-        if abs(V[1 + i] - cc * cc * V[0]) > (1e-10 + 40 * deficit) * scv:
+        if not (abs(V[1 + i] - cc * cc * V[0]) <= (1e-10 + 40 * deficit) * scv):
             fails.append(fail("variance_affine", "Var[%r f + %r] = %r, c^2 Var[f] = %r" % (cc, ee, V[1 + i], cc * cc * V[0]), key))
     if np.any(V < 0):
         fails.append(fail("variance_nonnegative", "variances %r" % (V.tolist(),), key))
-    if abs(E[4] - 4.2) > rt * 4.2 or abs(V[4]) > 1e-10 + 40 * deficit:
+    if not (abs(E[4] - 4.2) <= rt * 4.2) or not (abs(V[4]) <= 1e-10 + 40 * deficit):
         fails.append(fail("constant_model", "constant 4.2: expectation %r variance %r" % (E[4], V[4]), key))
     out = {"failures": fails, "canon": dw.canon(sa), "nontrivial": len(history) > 0 or c.get("estimator") == "real",
            "outcome": (round(float(E[0]), 10), round(float(V[0]), 10))}
